@@ -49,7 +49,7 @@ def gen_partials(rng, malformed=False):
     if malformed and rng.random() < 0.3:
         rows.insert(0, [0] * D)
         mask.insert(0, True)
-    return dict(kind=0, mask=mask, rows=rows, D=D)
+    return dict(kind=0, mask=mask, rows=rows, D=D, int_dtype=(rng.choice([0, 1, 2]) if not any(mask) else 0))
 
 
 def gen_fitness(rng):
@@ -97,6 +97,9 @@ def impl_main(payload):
             for i, b in enumerate(c["mask"]):
                 if b:
                     x[i, :] = np.nan
+            if not any(c["mask"]) and c.get("int_dtype"):
+                # a single trajectory given as an integer array (np.arange-style data): same mathematics
+                x = np.array(c["rows"], dtype={1: np.int64, 2: np.int32}[c["int_dtype"]]).reshape(len(c["rows"]), c["D"])
             try:
                 xa, da, inds = _calculate_partials(x)
                 out = [0] + [int(i) for i in inds]
